@@ -244,3 +244,34 @@ def table(ck, facts, R, which=("stale", "diverge")):
                 else:
                     ck.ok(R, inst, "not this property's clause")
     ck.floor(R, "reached_fixed_point.rows", n, 11)
+
+
+
+def loop_exits(ck, facts, R):
+    """Shared by C09 / C01 / C04 / C05 / C10: the cycle-head iteration of the recursive solver."""
+    from core import trace_is_call
+    ck.rule(R, "K3: RecursiveContext::solve_new_subgoal returns only through the false edge of read_and_reset_cycle_flag (nothing depended on "
+               "the provisional answer) or the true edge of reached_fixed_point, and rolls the search graph back (rollback_to) before it "
+               "iterates again.  Any other exit - out of fuel, an iteration bound, an `is trivially true` shortcut - keeps an answer that "
+               "members of the cycle computed against a provisional value (C01/C04/C05/C10); no exit on Ambiguous may not terminate (C09)")
+    b = need_body(ck, facts, R, "chalk_recursive::fixed_point::RecursiveContext::solve_new_subgoal")
+    if not b:
+        return
+    cfg = b.cfg
+    e1 = cfg.bool_edges(trace_is_call("read_and_reset_cycle_flag"), False)
+    e2 = cfg.bool_edges(trace_is_call("reached_fixed_point"), True)
+    exits = e1 + e2
+    rets = cfg.return_blocks()
+    ok = bool(e1) and bool(e2) and all(cfg.must_pass_edges(r, exits) for r in rets)
+    if ok:
+        ck.ok(R, "solve_new_subgoal:two-exits")
+    else:
+        ck.violation(R, "solve_new_subgoal:two-exits", b.where(), "the iteration loop must be left only when no cycle was flagged or a fixed point was reached")
+    rb = cfg.call_blocks("SearchGraph::rollback_to")
+    it = cfg.call_blocks("solve_iteration")
+    again = cfg.bool_edges(trace_is_call("reached_fixed_point"), False)
+    ok2 = bool(rb) and bool(it) and bool(again) and all(it[0] not in cfg.reachable(e[1], (), False, stop=set(rb)) - set(rb) for e in again)
+    if ok2:
+        ck.ok(R, "solve_new_subgoal:re-iteration-rolls-back")
+    else:
+        ck.violation(R, "solve_new_subgoal:re-iteration-rolls-back", b.where(), "each new iteration must start from a search graph rolled back to dfn+1")
